@@ -128,7 +128,26 @@ def c10(ctx):
         name = versions.SYSTEMS[sysi]
         strs = sorted({versions.gen(rng, sysi) for _ in range(n)} | {b"1.*", b"1.x", b"*", b"1.2.*", b"v1.2.3-A.b+B",
                                                                      b"1.*.3", b"1.*-a", b"1.x.0", b"1.*.*", b"*-a+b"})
+        # related spellings of every fifth string (zero padding, leading zeros, case, build tags): versions that
+        # share a canonical string on purpose, for the clause "same canonical string => compare equal"
+        extra = set()
+        for s in strs[::5]:
+            extra.update(v for v in versions.variants(rng, sysi, s) if len(v) < 200)
+        strs = sorted(set(strs) | extra)
         outs = ctx.impl("sv_canon", [sx([sysi, s]) for s in strs])
+        # the build-less canonical form obeys the same clauses
+        outs0 = ctx.impl("sv_canon0", [sx([sysi, s]) for s in strs])
+        for s, o in zip(strs, outs0):
+            r0 = parse_sx(o)
+            if r0[0] != b"ok":
+                continue
+            if r0[2][0] != b"ok":
+                ctx.violation("%s: the build-less canonical string does not parse" % name, {"system": name, "version": s, "canon": r0[1]})
+            elif r0[2][2] != r0[1]:
+                ctx.violation("%s: canonicalising the build-less canonical string again changes it" % name,
+                              {"system": name, "version": s, "canon": r0[1], "canon2": r0[2][2]})
+            elif r0[2][1] != 0:
+                ctx.count("c10:%s:canon0_reparse_differs(judged with canon1)" % name)
         margs, mwant = [], []
         bycanon = {}
         outdom = set()
